@@ -18,6 +18,7 @@ class Engine:
         self._const_lit = {}
         self.stats = {"functions_walked": 0, "paths": 0, "calls_resolved": 0}
         self._imports = None
+        self.callee_index = {}
 
     @property
     def imports(self):
@@ -48,6 +49,47 @@ class Engine:
     def walk(self, qualname, clsbind=None, inline=frozenset()):
         """summary of an anchor function by qualified name (vanished anchor -> AnalysisError)"""
         return self.summary(self.prog.func(qualname), clsbind, inline)
+
+    def repo_call(self, qualname, *args, clsbind=None):
+        """the term of a call of an anchor function (registers it for expand())"""
+        from .terms import CallT
+
+        fi = self.prog.func(qualname)
+        callee = "repo:" + qualname + ("[" + clsbind.split(".")[-1] + "]" if clsbind else "")
+        names = fi.params()
+        if fi.cls and not fi.is_staticmethod and fi.is_classmethod:
+            names = names[1:]
+        self.callee_index.setdefault(callee, (fi, clsbind, tuple(names)))
+        return CallT(callee, args)
+
+    # -- expansion of repo call terms to primitive level
+    def expand(self, t, depth=0):
+        """replace every repo call term whose callee returns one param-rooted value on all
+        its normal paths by that value (recursively): rules can then be stated over
+        primitives (json.dumps, unhexlify, from_public_bytes ...) instead of helper names"""
+        from .terms import P, is_call, subst
+
+        if depth > 8 or not isinstance(t, tuple):
+            return t
+        if is_call(t) and t[1].startswith("repo:") and t[1] in self.callee_index:
+            fi, clsbind, order = self.callee_index[t[1]]
+            sm = self.summary(fi, clsbind)
+            g = sm.groups.get("other")
+            args = tuple(self.expand(a, depth + 1) for a in t[2])
+            if g is not None and g["value"] is not None and len(sm.groups) == 1:
+                v = subst(g["value"], {P(n): a for n, a in zip(order, args)})
+                return self.expand(v, depth + 1)
+            pg = [rk for rk in sm.groups if isinstance(rk, tuple) and rk[0] == "param"]
+            if len(sm.groups) == 1 and pg:
+                return args[order.index(pg[0][1])]
+            return ("call", t[1], args, t[3])
+        if t and t[0] in ("lit",) and len(t) == 4:
+            if t[1] == "dict":
+                return ("lit", "dict", tuple((self.expand(k, depth + 1), self.expand(v, depth + 1)) for k, v in t[2]), t[3])
+            return ("lit", t[1], tuple(self.expand(x, depth + 1) for x in t[2]), t[3])
+        if t and t[0] in ("sub", "attr", "call", "binop", "elem"):
+            return tuple(self.expand(x, depth + 1) if isinstance(x, tuple) else x for x in t)
+        return t
 
     # -- module constants
     def const_literal(self, dotted):
